@@ -67,6 +67,10 @@ func NewExchangeJSightSchema[T bytes.ByteKeeper](
 		return nil, err
 	}
 
+	if err = CheckShortcutKeys(es.JSchema, coreUserTypes); err != nil {
+		return nil, err
+	}
+
 	err = es.JSchema.Compile()
 	if err != nil {
 		return nil, err
